@@ -42,18 +42,27 @@ def askForPin (anyPin : Bool) : M Bytes := fun w =>
 def getHsm : M Unit := connect
 def disposeHsm : M Unit := disconnect
 
+/-- the checks of `do_unlock` that precede the PIN: returns (mode, onboarded, echo matched) as the
+    device reported them (`onboarded` is only asked in bootloader / signer mode) -/
+def unlockChecks : M (Nat × Bool × Bool) := do
+  getHsm
+  let mode ← getCurrentMode
+  let onb ← (if mode == Mode_BOOTLOADER.toNat || mode == Mode_SIGNER.toNat then do
+      let o ← isOnboarded
+      if !o then adminError else pure o
+    else pure true)
+  if mode == Mode_UNKNOWN.toNat then adminError else
+  if mode == Mode_SIGNER.toNat || mode == Mode_UI_HEARTBEAT.toNat then adminError else
+  let e ← platEcho
+  if !e then adminError else
+  pure (mode, onb, e)
+
 /-- `do_unlock(options, exit, no_exec)` -/
 def doUnlock (o : Options) (exit : Bool := true) (noExec : Bool := false) : M Unit := do
   let pin : Option Bytes ← (match o.pin with
     | some p => if pinValid (utf8 p) o.anyPin then pure (some (utf8 p)) else adminError
     | none => pure none)
-  getHsm
-  let mode ← getCurrentMode
-  if mode == Mode_BOOTLOADER.toNat || mode == Mode_SIGNER.toNat then
-    if !(← isOnboarded) then adminError
-  if mode == Mode_UNKNOWN.toNat then adminError
-  if mode == Mode_SIGNER.toNat || mode == Mode_UI_HEARTBEAT.toNat then adminError
-  if !(← platEcho) then adminError
+  let _ ← unlockChecks
   let pin ← (match pin with | some p => pure p | none => askForPin true)
   if !(← platUnlock pin) then adminError
   if (← getWorld).platform == .ledger && exit then
@@ -98,22 +107,41 @@ def onboardDevice (seed pin : Bytes) : M Unit := do
     let b ← idx r 1
     if b != 2 then M.throw' .dongleError
 
-/-- `do_onboard` up to "Onboarded" -/
-def doOnboard (o : Options) : M Unit := do
-  if (← getWorld).platform == .ledger && !o.hasOutput then adminError
-  let pin : Option Bytes ← (match o.pin with
-    | some p => if pinValid (utf8 p) false then pure (some (utf8 p)) else adminError
-    | none => pure none)
+/-- the device checks of `do_onboard`: returns (mode, echo matched, onboarded) as reported -/
+def onboardChecks : M (Nat × Bool × Bool) := do
   getHsm
   let mode ← getCurrentMode
-  if mode != Mode_BOOTLOADER.toNat then adminError
-  if !(← platEcho) then adminError
-  if (← isOnboarded) then adminError
+  if mode != Mode_BOOTLOADER.toNat then adminError else
+  let e ← platEcho
+  if !e then adminError else
+  let onb ← isOnboarded
+  if onb then adminError else
+  pure (mode, e, onb)
+
+/-- the PIN `do_onboard` will use: the option's (already checked) or the operator's answer -/
+def onboardPin (o : Options) (pin : Option Bytes) : M Bytes :=
+  match pin with | some p => pure p | none => askForPin o.anyPin
+
+/-- the `--pin` option of `do_onboard`, checked against the policy before anything else -/
+def onboardOptPin (o : Options) : M (Option Bytes) :=
+  match o.pin with
+  | some p => if pinValid (utf8 p) false then pure (some (utf8 p)) else adminError
+  | none => pure none
+
+/-- `do_onboard` from the device checks to "Onboarded" -/
+def onboardCore (o : Options) (pin : Option Bytes) : M Unit := do
+  let _ ← onboardChecks
   confirm
-  let pin ← (match pin with | some p => pure p | none => askForPin o.anyPin)
+  let pin ← onboardPin o pin
   let seed := (← getWorld).seed
   onboardDevice seed pin
   disposeHsm
+
+/-- `do_onboard` up to "Onboarded" -/
+def doOnboard (o : Options) : M Unit := do
+  if (← getWorld).platform == .ledger && !o.hasOutput then adminError else
+  let pin ← onboardOptPin o
+  onboardCore o pin
 
 /-- `do_changepin` -/
 def doChangePin (o : Options) : M Unit := do
